@@ -15,16 +15,6 @@ Fixpoint distinct_from (seen : list dna) (l : list dna) : list dna :=
   end.
 Definition distinct_seqs (rows : list (string * dna)) : list dna := distinct_from [] (map snd rows).
 
-(* str <= str on byte strings (names are ASCII): lexicographic on character codes *)
-Fixpoint sleb (a b : string) : bool :=
-  match a, b with
-  | EmptyString, _ => true
-  | String _ _, EmptyString => false
-  | String x a', String y b' =>
-      if (N_of_ascii x <? N_of_ascii y)%N then true
-      else if (N_of_ascii y <? N_of_ascii x)%N then false
-      else sleb a' b'
-  end.
 
 (* names.sort(); names[0]: the smallest name in byte order *)
 Fixpoint min_name (x : string) (l : list string) : string :=
